@@ -30,7 +30,34 @@ FIX_REPLACEMENTS = [
        "\n        # concerns this item only, never its components\n        ifNotEmpty = options.pop('ifNotEmpty', False)\n")]),
     ('pyasn1/codec/streaming.py', 'wrapper_none', None),
     ('pyasn1/codec/ber/encoder.py', 'seg_spec', None),
+    ('pyasn1/type/univ.py', 'clone_empty', None),
+    ('pyasn1/codec/ber/decoder.py', 'bits_zero_segments', None),
 ]
+
+
+def clone_empty(txt):
+    """Redo 741c968 on a patched pyasn1/type/univ.py (the first _cloneComponentValues is the SEQUENCE OF one)."""
+    key = '    def _cloneComponentValues(self, myClone, cloneValueFlag):\n'
+    i = txt.find(key)
+    if i < 0:
+        return txt, False
+    j = i + len(key)
+    if txt[j:].lstrip().startswith('if self._componentValues is noValue:'):
+        return txt, False
+    ins = ('        if self._componentValues is noValue:\n            return\n\n'
+           '        # the copy of a value is a value, also when there is nothing in it\n        myClone.clear()\n\n')
+    return txt[:j] + ins + txt[j:], True
+
+
+def bits_zero_segments(txt):
+    """Redo 0c086fa on a patched pyasn1/codec/ber/decoder.py."""
+    m = re.search(r"        if not length:\n            raise error\.PyAsn1Error\('Empty BIT STRING substrate'\)\n\n"
+                  r"((?:        #[^\n]*\n)*)(        if tagSet\[[-0-9]+\]\.tagFormat == tag\.tagFormatSimple:[^\n]*\n)\n?", txt)
+    if not m:
+        return txt, False
+    new = (m.group(1) + m.group(2) + '\n            # (the constructed form may well consist of no segments at all)\n'
+           "            if not length:\n                raise error.PyAsn1Error('Empty BIT STRING substrate')\n\n")
+    return txt[:m.start()] + new + txt[m.end():], True
 
 
 def seg_spec(txt):
